@@ -120,8 +120,20 @@ pub fn parse_policy_document(data: &str) -> Result<ast::Policy, ParseError> {
 fn extract_policy(data: &str) -> Result<(Vec<PolicyChunk>, Version), ParseError> {
     let mut parseoptions = ParseOptions::gfm();
     parseoptions.constructs.frontmatter = true;
-    let tree = to_mdast(data, &parseoptions)
-        .map_err(|s| ParseError::new(ParseErrorKind::Unknown, s.to_string(), None))?;
+    // The Markdown parser is known to panic on some malformed documents (e.g. a
+    // front matter fence `---` that is never closed). A document must never take
+    // the host down, so a panic is reported as a parse error.
+    let tree = std::panic::catch_unwind(std::panic::AssertUnwindSafe(|| {
+        to_mdast(data, &parseoptions)
+    }))
+    .map_err(|_| {
+        ParseError::new(
+            ParseErrorKind::Unknown,
+            String::from("Markdown parser failed on this document"),
+            None,
+        )
+    })?
+    .map_err(|s| ParseError::new(ParseErrorKind::Unknown, s.to_string(), None))?;
     let (chunks, version) = extract_policy_from_markdown(&tree)?;
     Ok((chunks, version))
 }
